@@ -732,3 +732,40 @@ func Header(b []byte, som, code byte, serial uint32) {
 	b[0], b[1] = som, code
 	PutLE32(b[4:], serial)
 }
+
+// SetFirstCard has request/response message types but no API operation in this library.
+var setFirstCardRequest = Layout{0xaa, []Field{ser, f("door", 8, U8), f("start", 9, HHmm), f("start.control", 11, U8), f("end", 12, HHmm), f("end.control", 14, U8),
+	f("monday", 15, Bool), f("tuesday", 16, Bool), f("wednesday", 17, Bool), f("thursday", 18, Bool), f("friday", 19, Bool), f("saturday", 20, Bool), f("sunday", 21, Bool)}}
+var setFirstCardResponse = Layout{0xaa, ok}
+
+// RequestByCode returns the request layout registered for a function code.
+func RequestByCode(code byte) (Layout, bool) {
+	if code == 0xaa {
+		return setFirstCardRequest, true
+	}
+	for _, op := range Ops {
+		if op == "GetDevices" {
+			continue
+		}
+		if l := Requests[op]; l.Code == code {
+			return l, true
+		}
+	}
+	return Layout{}, false
+}
+
+// ResponseByCode returns the reply layout registered for a function code (none for 0x96).
+func ResponseByCode(code byte) (Layout, bool) {
+	if code == 0xaa {
+		return setFirstCardResponse, true
+	}
+	for _, op := range ReplyOps {
+		if op == "GetDevices" {
+			continue
+		}
+		if l := Responses[op]; l.Code == code {
+			return l, true
+		}
+	}
+	return Layout{}, false
+}
